@@ -84,7 +84,8 @@ FormatClauses(e) ==
                    [] sp.align = "^" -> pl = pad \div 2
                    [] OTHER -> pl = 0 \/ pr = 0),
           Cl("C15.symbol_resolves", kn /\ ok /\ ~unitless /\ symUnique,
-                 IdOrDash(T, FirstIdx(T, LAMBDA u : u.sym.cp = sym)) = e.v.u),
+                 /\ IdOrDash(T, FirstIdx(T, LAMBDA u : u.sym.cp = sym)) = e.v.u
+                 /\ (Has(e, "resolved") => Ok(e.resolved) /\ e.resolved.ok.unit = e.v.u /\ e.resolved.ok.qty = e.v.u)),
           Cl("C15.parse_back", kn /\ ok /\ ~unitless /\ fin /\ wellformed /\ sp.prec = -1,
                  IF BE = "dec" THEN XEq(val, absA)
                  ELSE \* the (signed) text lies in the rounding interval of the stored double
